@@ -56,6 +56,8 @@ def main():
     demo = os.path.join(dst, "demo_test.go")
     patch = os.path.join(dst, "patch.diff")
     run_demo = "go test -vet=off -count=5 -timeout 300s -run 'TestSeed' ."
+    if "--race" in a:
+        run_demo = "go test -race -vet=off -count=3 -timeout 600s -run 'TestSeed' ."
     # 1. clean + demo
     shutil.copy(demo, f"{wt}/zz_seed_demo_test.go")
     rc, out = sh(run_demo, wt)
